@@ -198,6 +198,38 @@ def solved_model(draw):
         determined.append(w)
         if u[0] == "alg":
             alias_targets.append(w)
+    # alias cluster: 3-4 fresh algebraic variables and one protected anchor (state, input or
+    # parameter) joined by a random spanning tree of alias equations with random orientation and
+    # sign; together with the shuffled printing order this merges alias groups in every order
+    cluster = draw(st.integers(0, 1)) == 1
+    if cluster:
+        anchor = draw(st.sampled_from([["var", states[0]], ["var", "u0"], ["var", "p0"]]))
+        nodes = [(anchor, ev(anchor))]
+        for gi in range(draw(st.integers(3, 4))):
+            gname = "g%d" % gi
+            vars_.append(D.var(gname))
+            gnode = ["var", gname]
+            tgt, tv = nodes[draw(st.integers(0, len(nodes) - 1))]
+            form = draw(st.sampled_from(["eq", "eq_rev", "eq", "eq_rev", "neg", "neg_rev", "sum0", "sum0_rev", "diff0", "diff0_rev"]))
+            if form == "eq":
+                eqs.append(["eq", gnode, tgt]); v = tv
+            elif form == "eq_rev":
+                eqs.append(["eq", tgt, gnode]); v = tv
+            elif form == "neg":
+                eqs.append(["eq", gnode, ["neg", tgt]]); v = -tv
+            elif form == "neg_rev":
+                eqs.append(["eq", tgt, ["neg", gnode]]); v = -tv
+            elif form == "sum0":
+                eqs.append(["eq", ["bin", "+", gnode, tgt], ["int", 0]]); v = -tv
+            elif form == "sum0_rev":
+                eqs.append(["eq", ["bin", "+", tgt, gnode], ["int", 0]]); v = -tv
+            elif form == "diff0":
+                eqs.append(["eq", ["bin", "-", gnode, tgt], ["int", 0]]); v = tv
+            else:
+                eqs.append(["eq", ["bin", "-", tgt, gnode], ["int", 0]]); v = tv
+            vals[gname] = v
+            nodes.append((gnode, v))
+        kinds.append("alias_cluster")
     shuffled = draw(st.permutations(list(range(len(eqs)))))
     ieqs = [["eq", ["var", s], lit(vals[s])] for s in states if draw(st.booleans())]
     # initial equations over algebraic variables too (they hold at s* by construction), so that
@@ -206,7 +238,7 @@ def solved_model(draw):
         if draw(st.integers(0, 3)) == 0:
             ieqs.append(["eq", ["var", a], lit(vals[a]) if vals[a] >= 0 else ["neg", lit(-vals[a])]])
     model = {"name": "M", "n": 2, "m": 2, "vars": vars_, "funcs": [], "eqs": [eqs[i] for i in shuffled], "ieqs": ieqs}
-    return {"model": model, "family": family, "time": use_time, "kinds": sorted(set(kinds)),
+    return {"model": model, "family": family, "time": use_time, "kinds": sorted(set(kinds)), "cluster": cluster,
             "sol": {k: (list(v) if isinstance(v, list) else v) for k, v in vals.items()}, "der": dict(ders)}
 
 
@@ -233,6 +265,8 @@ def option_set(draw, family, use_time):
 def case_strategy(draw):
     c = draw(solved_model())
     c["options"] = draw(option_set(c["family"], c["time"]))
+    if c.get("cluster") and draw(st.integers(0, 3)) > 0:
+        c["options"]["detect_aliases"] = True
     return c
 
 
